@@ -338,6 +338,18 @@ def case_hostile(spec, cov, out):
         n.link("hb", 1, "r2", 1)
         n.link("r1", 2, "r2", 2)
         targets = ["10.77.0.1", "10.2.0.99", "172.16.0.1"]
+    elif kind.startswith("dead-lan"):
+        # two routers with routes (and default routes) towards each other; the target LAN's side goes down before the pings
+        n.router("r1", {1: ("10.1.0.1", "255.255.255.0"), 2: ("10.100.0.1", "255.255.255.252")}, acl={0: {"action": "PERMIT"}},
+                 routes=[{"address": "10.2.0.0", "subnet_mask": "255.255.255.0", "next_hop_ip_address": "10.100.0.2"}], default_route="10.100.0.2" if "default" in kind else None, **z)
+        n.router("r2", {1: ("10.2.0.1", "255.255.255.0"), 2: ("10.100.0.2", "255.255.255.252")}, acl={0: {"action": "PERMIT"}},
+                 routes=[{"address": "10.1.0.0", "subnet_mask": "255.255.255.0", "next_hop_ip_address": "10.100.0.1"}], default_route="10.100.0.1" if "default" in kind else None, **z)
+        n.host("ha", "10.1.0.10", gw="10.1.0.1", **z)
+        n.host("hb", "10.2.0.10", gw="10.2.0.1", **z)
+        n.link("ha", 1, "r1", 1)
+        n.link("hb", 1, "r2", 1)
+        n.link("r1", 2, "r2", 2)
+        targets = ["10.2.0.10", "10.2.0.99", "10.2.0.10"]
     elif kind == "host-gateway":
         n.switch("sw", 6, **z)
         n.host("ha", "10.1.0.10", gw="10.1.0.20", **z)  # the 'gateway' is a plain host
@@ -368,6 +380,14 @@ def case_hostile(spec, cov, out):
         sim.pre_timestep(0)
         ha = sim.network.get_node_by_hostname("ha")
         ref = NetRef(cfg)
+        if kind.startswith("dead-lan"):
+            if "warm" in kind:
+                ha.ping("10.2.0.10")
+            req = {"port": ["network", "node", "r2", "network_interface", 1, "disable"], "hostoff": ["network", "node", "hb", "shutdown"],
+                   "nic": ["network", "node", "hb", "network_interface", 1, "disable"]}[kind.split("-")[2]]
+            sim.apply_request(req)
+            sim.apply_timestep(0)
+            sim.pre_timestep(1)
         for tgt in targets:
             tr.new_op(("ha", tgt, kind))
             try:
@@ -377,6 +397,8 @@ def case_hostile(spec, cov, out):
                 got = None
             cov.inc("hostile_pings")
             owners = ref.owners(IPv4Address(tgt))
+            if kind.startswith("dead-lan") and got:
+                tr.v("impossible-exchange-succeeds/icmp", f"{kind}: ping from ha to {tgt} succeeded although its LAN side is down")
             if got and not owners:
                 tr.v("impossible-exchange-succeeds/icmp", f"{kind}: ping from ha to the unowned address {tgt} succeeded")
             if kind == "chain" and owners and got is False:
@@ -402,7 +424,7 @@ class Check:
         "expectation model pv.models.netref is exact for host/switch/router paths (ACL first-match, LPM, documented router default rules); route ties and anything through a filtering firewall are not judged",
         "TTL: every receiving interface and every routing step lowers it; a frame object is followed by identity",
     ]
-    min_monitor = {"route_lookups": 20000, "exchanges": 600, "receive_events": 20000, "software_deliveries": 3000, "hostile_pings": 6}
+    min_monitor = {"route_lookups": 20000, "exchanges": 600, "receive_events": 20000, "software_deliveries": 3000, "hostile_pings": 30}
     case_timeout = {"quick": 1500, "thorough": 5400}
 
     def cases(self, tier, seed):
@@ -417,7 +439,8 @@ class Check:
             nr = 1 + s % 3
             specs.append({"name": f"topo-{sd}", "kind": "topology", "seed": sd, "routers": nr, "shape": "triangle" if (nr == 3 and s % 2) else "chain",
                           "rounds": 3 if q else 5, "pairs": 12 if q else 30})
-        for h in ("loop", "host-gateway", "chain"):
+        dead = [f"dead-lan-{how}{d}{w}" for how in ("port", "hostoff", "nic") for d in ("", "-default") for w in ("", "-warm")]
+        for h in ["loop", "host-gateway", "chain"] + dead:
             specs.append({"name": f"hostile-{h}", "kind": "hostile", "hostile": h, "seed": seed})
         return specs
 
